@@ -27,7 +27,7 @@ Record ccase := mkCase {
   c_finals : list (N * sstate);         (* object index -> value after all runs *)
   c_results : list (N * outcome);       (* run -> outcome *)
   c_gens : N;
-  c_modifier : bool }.                  (* the resumes were called with a state modifier *)
+  c_modruns : list N }.                 (* the runs whose resumes were called with a state modifier *)
 
 Definition all_nodes (f : forest) : list node := List.concat (map g_nodes f).
 
@@ -36,11 +36,12 @@ Definition all_nodes (f : forest) : list node := List.concat (map g_nodes f).
    hypotheses and the conclusion of state_lookup_well_typed *)
 
 (* the caller's modifier is applied exactly once to every state a checkpoint holds (and to
-   nothing when no modifier was given): the [m] of every resume step is the caller's *)
-Definition mods_ok (modifier : bool) (l : list item) : bool :=
+   nothing when the run was resumed without one - with several runs only some are called with a
+   modifier): the [m] of every resume step is the caller's *)
+Definition mods_ok (modruns : list N) (l : list item) : bool :=
   forallb (fun it => match it with
-                     | IResume _ mods snaps =>
-                         if modifier then l_eqb Nat.eqb mods (sort_by Nat.ltb (map fst snaps))
+                     | IResume r mods snaps =>
+                         if existsb (N.eqb r) modruns then l_eqb Nat.eqb mods (sort_by Nat.ltb (map fst snaps))
                          else match mods with [] => true | _ => false end
                      | _ => true
                      end) l.
@@ -126,7 +127,7 @@ Definition check_lts (c : ccase) : N :=
     if negb (gens_ok g) then 220 else
     if negb (nest_ok f) then 221 else
     if negb (lookup_ok f g) then 222 else
-    if negb (c_failing c || must_fail_t f (c_gty c) (c_nty c)) && negb (mods_ok (c_modifier c) (c_log c)) then 223 else
+    if negb (c_failing c || must_fail_t f (c_gty c) (c_nty c)) && negb (mods_ok (c_modruns c) (c_log c)) then 223 else
     if negb (run_iso_ok g) then 224 else 0
   end.
 
